@@ -129,15 +129,30 @@ func smRun(h []int) (kind, detail string, mod *ref.MapModel) {
 	// must not change what later steps produce
 	m2 := sourcemap.New()
 	mod2 := ref.NewMapModel()
+	type snap struct {
+		sm       *sourcemap.SourceMap
+		mappings string
+		names    string
+		step     int
+	}
+	var snaps []snap
 	for i, o := range h {
 		smOps[o].impl(m2)
 		smOps[o].mod(mod2)
 		if i < len(h)-1 {
-			_ = m2.SourceMap()
+			if sm := m2.SourceMap(); sm != nil {
+				snaps = append(snaps, snap{sm, sm.Mappings, strings.Join(sm.Names, "\x00"), i})
+			}
 		}
 	}
 	if k, d := smCompare(m2.SourceMap(), mod2); k != "" {
 		return "observed-" + k, "with SourceMap() requested after every step: " + d, mod
+	}
+	// a map that was handed out stays what it was when the builder goes on
+	for _, s := range snaps {
+		if s.sm.Mappings != s.mappings || strings.Join(s.sm.Names, "\x00") != s.names {
+			return "earlier-result-changed", fmt.Sprintf("the map returned after step %d had mappings %q names %q; after the later steps the same object has mappings %q names %q", s.step, s.mappings, strings.Split(s.names, "\x00"), s.sm.Mappings, s.sm.Names), mod
+		}
 	}
 	return
 }
